@@ -106,7 +106,7 @@ def main():
     failures = []
     try:
         with contextlib.redirect_stdout(sys.stderr):
-            failures = mod.oracle(ctx, deep=bool(broken))
+            failures = mod.oracle(ctx, deep=bool(broken) or os.environ.get("VERIF_FORCE_DEEP") == "1")
     except Exception as e:
         broken.append(("oracle", f"oracle exception {type(e).__name__}: {e}\n" + traceback.format_exc()[-1200:]))
 
